@@ -1,6 +1,7 @@
 SPECIFICATION Spec
 CONSTANTS
-  Alphabet = {"lt", "gt", "slash", "qmark", "bang", "eq", "dq", "sp", "nl", "x", "nul"}
+  Prefixes = {"none"}
+  Alphabet = {"lt", "gt", "slash", "qmark", "eq", "sp", "nl", "x", "nul"}
   MaxLen = 5
   Emit = TRUE
   VoidClosesTag = TRUE
